@@ -177,6 +177,7 @@ type instance struct {
 	plugin *httpin.Plugin
 	rec    *recorder
 	es     bool
+	lim    limits
 	srv    *httptest.Server // loopback server (handler wrapper -> plugin.ServeHTTP), lazily started
 	conn   net.Conn
 	br     *bufio.Reader
@@ -186,7 +187,15 @@ type instance struct {
 var instSeq int
 var instMu sync.Mutex
 
-func startPlugin(ctl pipeline.InputPluginController, es bool, avgEventSize int) *httpin.Plugin {
+// limits are the pipeline size settings the plugin is started with. C11 says
+// the http input hands over exactly the body's lines; what is too large is
+// the pipeline's business (C20), so the oracle is the same for every value.
+type limits struct {
+	MaxEventSize int  `json:"max_event_size"`
+	CutOff       bool `json:"cut_off_event_by_limit"`
+}
+
+func startPlugin(ctl pipeline.InputPluginController, es bool, avgEventSize int, lim limits) *httpin.Plugin {
 	instMu.Lock()
 	instSeq++
 	id := instSeq
@@ -206,9 +215,10 @@ func startPlugin(ctl pipeline.InputPluginController, es bool, avgEventSize int) 
 	}
 	params := &pipeline.InputPluginParams{
 		PluginDefaultParams: pipeline.PluginDefaultParams{
-			PipelineName:     fmt.Sprintf("c11_%d", id),
-			PipelineSettings: &pipeline.Settings{AvgEventSize: avgEventSize, MetaCacheSize: 16, Capacity: 16},
-			MetricCtl:        metric.NewCtl(fmt.Sprintf("c11_%d", id), prometheus.NewRegistry(), 0, 0),
+			PipelineName: fmt.Sprintf("c11_%d", id),
+			PipelineSettings: &pipeline.Settings{AvgEventSize: avgEventSize, MetaCacheSize: 16, Capacity: 16,
+				MaxEventSize: lim.MaxEventSize, CutOffEventByLimit: lim.CutOff, CutOffEventByLimitField: ""},
+			MetricCtl: metric.NewCtl(fmt.Sprintf("c11_%d", id), prometheus.NewRegistry(), 0, 0),
 		},
 		Controller: ctl,
 		Logger:     zap.NewNop().Sugar(),
@@ -218,9 +228,9 @@ func startPlugin(ctl pipeline.InputPluginController, es bool, avgEventSize int) 
 	return pl
 }
 
-func newInstance(es bool, avgEventSize int) *instance {
+func newInstance(es bool, avgEventSize int, lim limits) *instance {
 	rec := &recorder{}
-	return &instance{plugin: startPlugin(rec, es, avgEventSize), rec: rec, es: es}
+	return &instance{plugin: startPlugin(rec, es, avgEventSize, lim), rec: rec, es: es, lim: lim}
 }
 
 func (in *instance) close() {
@@ -464,6 +474,14 @@ func judge(c *Case, o *obs) (vs []viol, outcome string) {
 
 	if c.Clean() {
 		kind, idx := diffKind(o.datas, want)
+		if kind != "" && c.Lim.MaxEventSize > 0 && idx < len(o.datas) && idx < len(want) &&
+			len(o.datas[idx]) < len(want[idx]) && len(want[idx]) > c.Lim.MaxEventSize {
+			// a line longer than max_event_size came out shorter
+			// exactly the first max_event_size bytes, optionally followed by a later part of the line
+			if g, w, m := o.datas[idx], want[idx], c.Lim.MaxEventSize; len(g) >= m && bytes.Equal(g[:m], w[:m]) && bytes.HasSuffix(w, g[m:]) {
+				kind = "line-longer-than-max_event_size-cut-or-spliced"
+			}
+		}
 		if kind != "" {
 			ctx := lineContext(c, o.reads, idx)
 			var g, w string
